@@ -627,18 +627,32 @@ func c16Header(c *Ctx, p *Prog) {
 		return
 	}
 	// the walk closure: the anonymous function with a loop that allocates KeyHeaderNode
+	// (a recursive closure, or — with an explicit worklist — NewKeyHeader itself): the innermost loop that asks a key for
+	// its value
 	var walk *ssa.Function
-	for _, a := range fn.AnonFuncs {
-		if len(naturalLoops(a)) >= 1 {
-			walk = a
+	var lp *loopInfo
+	for _, a := range append([]*ssa.Function{fn}, fn.AnonFuncs...) {
+		for _, l := range naturalLoops(a) {
+			hasGet := false
+			for b := range l.Blocks {
+				for _, in := range b.Instrs {
+					if call, ok := in.(*ssa.Call); ok {
+						if co := calleeObj(&call.Call); co != nil && co.Name() == "Get" {
+							hasGet = true
+						}
+					}
+				}
+			}
+			if hasGet && (lp == nil || len(l.Blocks) < len(lp.Blocks)) {
+				walk, lp = a, l
+			}
 		}
 	}
 	if walk == nil {
-		c.Undecided(R, "header:walk", p.pos(fn.Pos()), "tree-building closure not found")
+		c.Undecided(R, "header:walk", p.pos(fn.Pos()), "tree-building loop not found")
 		return
 	}
 	site := p.pos(walk.Pos())
-	lp := naturalLoops(walk)[0]
 	start := loopBodyStart(lp)
 	outs, why := e6Enumerate(func() *e6Interp { return &e6Interp{PureCall: func(f *types.Func) bool { return f.Name() == "Get" }} }, start, lp.Header, iterStop(lp, start), 64)
 	if why != "" {
